@@ -40,6 +40,10 @@
  *                             every state dump also shows how the double 1.5 serializes (a released format
  *                             string that is still in use shows up there, under ASan)
  *   pa<d>,<r>,<p>             json_patch_apply(r, p, &d, &err)   (copy mode)
+ *   pi<r>,<p>                 json_patch_apply(NULL, p, &r, &err) (in place: after a failure r may keep the
+ *                             effects of the operations before the failing one — documented — so r is
+ *                             left out of the "unchanged" comparison, but it is still walked, must still
+ *                             be valid and is released by the caller)
  *
  * observation:  n=<N> base=<res0>|<res1>…@<state> ks=<tok>,<tok>,…
  *   res_i   result of test operation i in the fault-free run (rc / text as hex / error code)
@@ -132,6 +136,7 @@ static void dumpf(FILE *f, struct json_object *o)
 
 static int dump_allocated;     /* set when a dump went through the controlled allocator */
 static int fmt_used;           /* a df operation ran: the double format is part of the state */
+static int mask_reg = -1;     /* this register is walked but printed as '~' */
 static char *state_dump(void)
 {
 	char *buf = NULL; size_t len = 0; int i;
@@ -139,7 +144,11 @@ static char *state_dump(void)
 	FILE *f = open_memstream(&buf, &len);
 	xa_fail_at = -1; xa_limit = 0;
 	for (i = 0; i < NREG; i++)
-		if (regs[i]) { fprintf(f, "r%d=", i); dumpf(f, regs[i]); fputc(';', f); }
+		if (regs[i] && i == mask_reg) {
+			char *tb = NULL; size_t tl = 0; FILE *tf = open_memstream(&tb, &tl);
+			dumpf(tf, regs[i]); fclose(tf); (free)(tb);
+			fprintf(f, "r%d=~;", i);
+		} else if (regs[i]) { fprintf(f, "r%d=", i); dumpf(f, regs[i]); fputc(';', f); }
 	if (xa_count != c0) dump_allocated = 1;
 	if (fmt_used) {
 		struct json_object *probe = json_object_new_double(1.5);
@@ -447,6 +456,17 @@ static char *exec_op(char *op, int *isfail, int *bad)
 			*isfail = 1;
 			if (base) json_object_put(base);
 		} else regs[r] = base;
+	} else if (OP('p', 'i') && na >= 2) {
+		struct json_patch_error pe; int rc, p = regno(a[1]);
+		if (p < 0 || !regs[r] || !regs[p]) { *bad = 1; return res_close(); }
+		memset(&pe, 0, sizeof pe);
+		rc = json_patch_apply(NULL, regs[p], &regs[r], &pe);
+		fprintf(res_f, "%d", rc);
+		if (rc < 0) {
+			fprintf(res_f, ",%s,%ld", pe.errno_code == EFAULT ? "EFAULT" : errno_name(pe.errno_code),
+			        pe.patch_failure_idx == (size_t)-1 ? -1L : (long)pe.patch_failure_idx);
+			*isfail = 1;
+		}
 	} else *bad = 1;
 	return res_close();
 }
@@ -463,7 +483,7 @@ static int has_op(const char *list, const char *two)
 	return 0;
 }
 
-static char *base_res[MAXOPS], *base_state[MAXOPS];
+static char *base_res[MAXOPS], *base_state[MAXOPS], *base_state_m[MAXOPS];
 static int nbase;
 
 struct outcome { char cls; int opi; char owned; long leak; long n; int bad; int fired; };
@@ -490,24 +510,33 @@ static struct outcome run_workload(const char *setup, const char *test, long k, 
 	if (k >= 0) { xa_fail_at = c0 + k; second_j = j2; xa_limit = limit; }
 	save = NULL;
 	for (i = 0, op = strtok_r(t, ";", &save); op && i < MAXOPS && !oc.bad; op = strtok_r(NULL, ";", &save), i++) {
-		char *pre = state_dump(), *res, *post; int isfail, bad;
+		char *pre = state_dump(), *res, *post, *pre_m = NULL, *post_m = NULL; int isfail, bad;
+		/* in-place patch: a second pair of dumps that leaves the patched tree out */
+		int inplace = (op[0] == 'p' && op[1] == 'i' && op[2] >= '0' && op[2] <= '9') ? op[2] - '0' : -1;
+		if (inplace >= 0) { mask_reg = inplace; pre_m = state_dump(); mask_reg = -1; }
 		control_point();
 		res = exec_op(op, &isfail, &bad);
 		post = state_dump();
+		if (inplace >= 0) { mask_reg = inplace; post_m = state_dump(); mask_reg = -1; }
 		if (bad) oc.bad = 1;
 		if (k < 0) {
-			base_res[i] = res; base_state[i] = post; nbase = i + 1;
-			(free)(pre);
+			base_res[i] = res; base_state[i] = post; base_state_m[i] = post_m; nbase = i + 1;
+			(free)(pre); (free)(pre_m);
 			continue;
 		}
-		if (i < nbase && strcmp(res, base_res[i]) == 0 && strcmp(post, base_state[i]) == 0) {
-			(free)(pre); (free)(res); (free)(post);
+		if (i < nbase && strcmp(res, base_res[i]) == 0 &&
+		    (strcmp(post, base_state[i]) == 0 ||
+		     (inplace >= 0 && isfail && strcmp(post_m, base_state_m[i]) == 0))) {
+			(free)(pre); (free)(res); (free)(post); (free)(pre_m); (free)(post_m);
 			continue;
 		}
 		oc.opi = i;
-		if (isfail && xa_failed) { oc.cls = 'F'; oc.owned = strcmp(pre, post) == 0 ? 'u' : 'c'; }
+		if (isfail && xa_failed) {
+			oc.cls = 'F';
+			oc.owned = (inplace >= 0 ? strcmp(pre_m, post_m) : strcmp(pre, post)) == 0 ? 'u' : 'c';
+		}
 		else oc.cls = 'D';
-		(free)(pre); (free)(res); (free)(post);
+		(free)(pre); (free)(res); (free)(post); (free)(pre_m); (free)(post_m);
 		break;
 	}
 	oc.n = xa_count - c0;
@@ -568,6 +597,6 @@ void run_case(char *rest)
 	if (first) putchar('-');
 	if (dump_allocated) printf(" DUMPALLOC");
 done:
-	for (i = 0; i < nbase; i++) { (free)(base_res[i]); (free)(base_state[i]); }
+	for (i = 0; i < nbase; i++) { (free)(base_res[i]); (free)(base_state[i]); (free)(base_state_m[i]); base_state_m[i] = NULL; }
 	nbase = 0;
 }
